@@ -27,6 +27,7 @@ META["text"] += ' (R7, N) Assorter and Assertion constructors store contest, upp
 META["text"] += ' (R8 = C07.R3) the threshold moves only while the contest is in progress.'
 META["text"] += ' (R9 = C03.R3) every ONEAudit pool mean is the assorter total over the count of the same cards.'
 META["text"] += ' R3 also borrows C09.R1: (d, u) come from mvrs_to_data of the samples handed in, so the filter of R4 is the one that decides which cards contribute.'
+META["text"] += " R4: the specified filter is evaluated on the arguments as handed in (a parameter re-bound on the way is part of the code's condition); the value functions keep no state between calls."
 
 SPEC_U = '''
 def spec(at, v, ua):
